@@ -17,7 +17,7 @@ def check_c08(tier):
     os.makedirs(outdir, exist_ok=True)
     path = os.path.join(outdir, "trace.ndjson")
     env = dict(os.environ, VERIF_SEED=str(vlib.seed()),
-               VERIF_PROBES="250" if tier == "quick" else "600",
+               VERIF_PROBES="300" if tier == "quick" else "1500",
                VERIF_ADEQUACY="8" if tier == "quick" else "60")
     p = subprocess.run([vlib.harness_bin("drive_schema"), path], env=env,
                        stdout=subprocess.PIPE, stderr=subprocess.PIPE, text=True, timeout=3000)
